@@ -110,6 +110,8 @@ impl Compiler {
     }
 
     fn compile_expr(&mut self, expr: Expression) {
+        #[cfg(tera_verif)]
+        let _verif_gauge = crate::verif::DepthGuard::new();
         match expr {
             Expression::Const(e) => {
                 let (val, span) = e.into_parts();
@@ -461,6 +463,8 @@ impl Compiler {
     }
 
     pub fn compile_node(&mut self, node: Node) {
+        #[cfg(tera_verif)]
+        let _verif_gauge = crate::verif::DepthGuard::new();
         match node {
             Node::Content(text) => {
                 self.chunk.add(Instruction::WriteText(text), None);
